@@ -108,7 +108,7 @@ def check_continue(line, spaces, indent, linelen, cont, produced):
     return v
 
 
-def model_write_lines(lines, indent):
+def model_write_lines(lines, indent, spaces="    "):
     """Reference model of the documented directive rules.
     Returns (events, final_indent); events are ("raw", text) for text that
     goes to the stream verbatim and ("cont", text, indent) for text that is
@@ -119,6 +119,15 @@ def model_write_lines(lines, indent):
             indent += int(line)
         elif isinstance(line, int):
             indent += line
+        elif type(line).__name__ == "UserCode":
+            # user splicer code: copied unchanged at the current indent (C12), '#' lines in column one
+            for sub in line.split("\n"):
+                if sub == "":
+                    ev.append(("raw", "\n"))
+                elif sub[0] == "#":
+                    ev.append(("raw", sub + "\n"))
+                else:
+                    ev.append(("raw", spaces * max(indent, 0) + sub + "\n"))
         else:
             for sub in line.split("\n"):
                 if sub == "":
